@@ -465,6 +465,34 @@ fn c19_local(rep: &mut Rep, r: &mut Rng, extra: usize) {
       early("run after the previous one (the executor had been held up)", rep, locus, &case, w[0].1, p, w[1].1);
     }
   }
+  // a repeating task whose body takes time (it sleeps for most of a period): the wait for the next
+  // run starts when the body has returned, so run n+1 starts at least one period after run n ENDED
+  for (k, p) in [us(800), us(2000)].into_iter().enumerate() {
+    let case = format!("rt:slow_body:{}", k);
+    let locus = "RepeatTask::new[real-timer]";
+    let mut pool = LocalPool::new();
+    let ends: Arc<Mutex<Vec<(usize, Instant, Instant)>>> = Default::default();
+    fn slow_body(a: &mut (Arc<Mutex<Vec<(usize, Instant, Instant)>>>, Duration), seq: usize) -> bool {
+      let start = Instant::now();
+      std::thread::sleep(a.1);
+      let mut g = a.0.lock().unwrap();
+      g.push((seq, start, Instant::now()));
+      seq < 3 && g.len() < 12
+    }
+    let _h = pool.spawner().schedule(RepeatTask::new(p, slow_body, (ends.clone(), p * 3 / 4)), None);
+    pool.run();
+    rep.count("real_timer_cases", 1);
+    rep.count("repeating_tasks_with_a_slow_body", 1);
+    let seen = ends.lock().unwrap().clone();
+    let seqs: Vec<usize> = seen.iter().map(|s| s.0).collect();
+    if seqs != vec![0, 1, 2, 3] {
+      rep.violation("wrong_sequence_numbers", locus, &case, json!({"observed": seqs, "expected": [0, 1, 2, 3]}));
+      continue;
+    }
+    for w in seen.windows(2) {
+      early("run after the previous one had ended (slow body)", rep, locus, &case, w[0].2, p, w[1].1);
+    }
+  }
   // delays far beyond any run: the body may not run while we watch
   for (k, d) in [Duration::from_secs(3600), Duration::from_secs(86_400 * 365 * 30), Duration::from_millis(u32::MAX as u64 + 1), Duration::from_secs(u32::MAX as u64 + 1), Duration::from_secs(u64::MAX / 1000 + 1), Duration::MAX]
     .into_iter()
